@@ -351,7 +351,12 @@ def scenario(rng, reqs, kt, n_req=1, force=None, tx_dt=0):
 
 
 def model_cmd(sc, sk):
-    return (f'reqs {sk} {sc["retries"]} {sc["delay"]} {sc["script"]["idle"]} {Q.script_token(sc["script"])} '
+    head = 'reqs'
+    if sc.get('backend') == 'tty':
+        # the model of the serial backend over a line (model/LineBackend.v): port and receiver at the bit rate in force
+        cur = sc['bauds'][1] if sc['bauds'][1] is not None else sc['bauds'][0]
+        head = f'reqsline {cur} {cur}'
+    return (f'{head} {sk} {sc["retries"]} {sc["delay"]} {sc["script"]["idle"]} {Q.script_token(sc["script"])} '
             + ' '.join(rq.token() for rq in sc['reqs']))
 
 
@@ -395,6 +400,7 @@ def parse_result(s):
     d = {'ret': parts[0], 'dt': int(parts[1][3:]) if parts[1].startswith('dt=') else None, 'tie': 'TIE' in parts,
          'trace': [t for t in tr.split(',') if t]}
     d['tx'] = [t for t in d['trace'] if t.startswith('T')]
+    d['port'] = next((x[5:] for x in parts if x.startswith('port=')), None)
     return d
 
 
